@@ -29,6 +29,8 @@ DecReq(j) ==
          [] j.q = "cA"  -> [q |-> "cA", aeromu |-> InRat(j.aeromu)] @@ pl
          [] j.q = "uvw" -> [q |-> "uvw", c |-> RatSeq(j.c), pts |-> Pts(j.pts)] @@ pl
          [] j.q \in {"strain", "stress"} -> [q |-> j.q, c |-> RatSeq(j.c), pts |-> Pts(j.pts), NL |-> j.NL] @@ pl
+         [] j.q \in {"fint", "kT"} -> [q |-> j.q, c |-> RatSeq(j.c)] @@ pl
+         [] j.q = "kGc" -> [q |-> "kGc", c |-> RatSeq(j.c), NL |-> j.NL] @@ pl
          [] j.q \in {"fext", "static"} -> [q |-> "fext", forces |-> Forces(j.forces), forcesInc |-> Forces(j.forcesInc),
                                             inc |-> InRat(j.inc)] @@ pl
 
@@ -38,7 +40,7 @@ BadEntriesT(obs, E, t) ==
     ELSE IF Len(E) = 0 THEN {}
     ELSE { rc \in (1..Len(E)) \X (1..Len(E[1])) : ~Close(obs[rc[1]][rc[2]], E[rc[1]][rc[2]][1], E[rc[1]][rc[2]][2], t) }
 BadEntries(obs, E) == BadEntriesT(obs, E, Tol)
-Shape(r, M) == IF r.q = "fext" THEN Fn([k \in 1..Len(M) |-> <<M[k]>>]) ELSE M
+Shape(r, M) == IF r.q \in {"fext", "fint"} THEN Fn([k \in 1..Len(M) |-> <<M[k]>>]) ELSE M
 (* the smallest set of listed open deviations (at most two) under which the observation is explained *)
 RECURSIVE FirstKF(_,_,_,_)
 FirstKF(cands, obs, d, r) ==
